@@ -133,6 +133,13 @@ pub fn emit(sh: &mut Shards, st: &mut Stats, case: &Case, source: &str) {
     st.add("shape:details", details as u64);
     st.add("shape:nonzero_charges", charges as u64);
     st.add("shape:statements", case.stmts.len() as u64);
+    for s in &case.stmts {
+        for b in &s.balances {
+            if b.amt.v.m == 0 && !s.entries.is_empty() {
+                st.count(if b.opening { "shape:zero_opening_balance_with_entries" } else { "shape:zero_closing_balance_with_entries" });
+            }
+        }
+    }
     if case.cfg.new_to_old {
         st.count("row_order:new_to_old");
     } else {
@@ -270,14 +277,22 @@ fn seed_cases() -> Vec<Case> {
     empty.stmts[0].balances[1].amt = chf(100, 0);
     let mut neg = base.clone();
     neg.stmts[0].balances[0].credit = false; // opening balance -100: closing is off by 200 -> rejected
-    vec![base, rev, empty, neg]
+    // a new account: opening balance exactly 0 (the Initial Balance transaction asserting `= 0 CHF` is still due)
+    let mut zero_open = base.clone();
+    zero_open.stmts[0].balances[0].amt = chf(0, 2);
+    zero_open.stmts[0].balances[1].amt = chf(1393795, 2);
+    // ... and a statement that ends at exactly 0: 100 + 6000 - 6100
+    let mut zero_close = base.clone();
+    zero_close.stmts[0].entries = vec![plain(6000, 0, true, 2, Some(2), 2), plain(6100, 0, false, 5, Some(4), 4)];
+    zero_close.stmts[0].balances[1].amt = chf(0, 2);
+    vec![base, rev, empty, neg, zero_open, zero_close]
 }
 
 pub fn run(o: &Opts) {
     let mut st = Stats::new();
     // smaller files in the thorough tier: coqc memory grows with the size of the case literal
     let mut sh = Shards::new(&o.out, if o.thorough { o.shards * 6 } else { o.shards }, HEADER);
-    st.rule = "Camt053 XML generated from statement data (1-2 statements of 0-8 entries; credits and debits; entries without details, with one detail, batches of 2-4 details summing to the entry; included / not-included / zero / credit charge records on entries and details with TxAmt explaining included charges; value date absent / equal / different, Dt and DtTm; both row orders; OPBD/CLBD in either order; per-record rewrite rules giving payee / account / pending) plus inconsistent variants (wrong closing balance, batch not summing, unexplained charge, missing balance), foreign-currency details with exchange rates and error variants; run through import(Format::IsoCamt053) + to_double_entry, printed as ImportCmd does and fed with a funding transaction to report::process; non-trivial = at least 2 entries and at least one batch or non-zero charge; distinct by XML + configuration".into();
+    st.rule = "Camt053 XML generated from statement data (1-2 statements of 0-8 entries; credits and debits; entries without details, with one detail, batches of 2-4 details summing to the entry; included / not-included / zero / credit charge records on entries and details with TxAmt explaining included charges; value date absent / equal / different, Dt and DtTm; both row orders; OPBD/CLBD in either order; opening balance of exactly 0 and closing balance of exactly 0 in about 1/8 of the statements each; per-record rewrite rules giving payee / account / pending) plus inconsistent variants (wrong closing balance, batch not summing, unexplained charge, missing balance), foreign-currency details with exchange rates and error variants; run through import(Format::IsoCamt053) + to_double_entry, printed as ImportCmd does and fed with a funding transaction to report::process; non-trivial = at least 2 entries and at least one batch or non-zero charge; distinct by XML + configuration".into();
     st.assumptions.push("quick-xml/serde deserialisation is an oracle: the model starts from the statement data the XML was written from (xmlnode is a private module)".into());
     st.assumptions.push("amount mantissas below 10^7 with scale <= 4: every Decimal sum is exact; no negative-zero amount text in the XML".into());
     st.assumptions.push("the rewrite-rule extractor is an oracle here (C17): each record's fragment is fixed by one anchored rule on its additional info".into());
